@@ -234,6 +234,11 @@ fn alphabets() -> &'static Alphabets {
     })
 }
 
+/// the generated variant alphabet (sorted ascending), for other checks that want long lists
+pub fn variant_alphabet() -> &'static [S] {
+    &alphabets().variants
+}
+
 fn elems(dim: &str) -> &'static [S] {
     let a = alphabets();
     match dim {
@@ -247,7 +252,11 @@ fn elems(dim: &str) -> &'static [S] {
 
 /// the text of one list in its grammatical position
 pub fn input_text(dim: &str, sp: &Spec) -> String {
-    let idx = sp.indices();
+    text_of(dim, &sp.indices())
+}
+
+/// the text of an arbitrary index list (indices into the dimension's alphabet)
+pub fn text_of(dim: &str, idx: &[usize]) -> String {
     let al = elems(dim);
     let words = &alphabets().words;
     let list: Vec<String> = match dim {
